@@ -188,6 +188,21 @@ UNITS["codec"] = {
     "safety": {"*": ["C16", "C15"]},
 }
 
+# generator derivation primitives (C11): the SHAKE256 chain and the SHA3-512 hash-to-point
+UNITS["gens_chain"] = {
+    "prelude": PRELUDE_ALL + ["96_xof.rs"],
+    "contracts": ["gens_chain.vc"],
+    "pieces": types() + [
+        items("src/generators/generators_chain.rs", ["GeneratorsChain"]),
+        fns("src/generators/generators_chain.rs", "impl GeneratorsChain<P> {", "GeneratorsChain", fns=["new"], impl_filter="implGeneratorsChain<P>", opdesugar=False, renames="enumerate"),
+        fns("src/generators/generators_chain.rs", "impl GeneratorsChain<P> {", "GeneratorsChain", fns=["next"], impl_filter="implIteratorforGeneratorsChain<P>", opdesugar=False,
+            subst=[("Option < Self :: Item >", "Option < P >")]),
+        fns("src/protocols/curve_point_protocol.rs", "impl P {", "CurvePointProtocol", fns=["hash_from_bytes_sha3_512"], opdesugar=False, renames="enumerate"),
+        raw("proof fn vx_canary_axioms_gc() ensures false { broadcast use group_ring; }\n"),
+    ],
+    "safety": {"*": ["C11"]},
+}
+
 # serde wrappers (C15: "the serde form accepts and produces exactly the same byte strings")
 UNITS["serde"] = {
     "prelude": PRELUDE_ALL + ["90_codec.rs", "97_serde.rs"],
